@@ -142,6 +142,22 @@ def iterate {α : Type} : Nat → Windower α → List ((Nat × Option Nat) × O
     | none => [(sizeHint w, none)]
     | some (c, w') => (sizeHint w, some c) :: iterate cap w'
 
+/-- the windower after `n` chunks were taken (or fewer, if it ended) -/
+def advance {α : Type} : Nat → Windower α → Windower α
+  | 0, w => w
+  | n + 1, w => match next w with
+    | none => w
+    | some (_, w') => advance n w'
+
+/-- iterating with the public fields `bin` / `hop` reassigned after `k` chunks (`windower.bin = b2; windower.hop = h2`
+    between two `next()` calls: the fields are `pub`, window/mod.rs:108-113): the first `k` observations, then — if the
+    windower has not ended — the observations of the windower over the same remaining frames with the new fields -/
+def iterateRebin {α : Type} (cap k b2 h2 : Nat) (w : Windower α) : List ((Nat × Option Nat) × Option (List α)) :=
+  let first := iterate (min k cap) w
+  if first.length = k ∧ (first.getLast?.map (fun o => o.2.isSome)).getD true ∧ k ≤ cap then
+    first ++ iterate (cap - k) { advance k w with bin := b2, hop := h2 }
+  else first
+
 /-! ## Instances -/
 
 /-- exact arithmetic; `wrap1 x = x − ⌊x⌋` (equal to `fmod(x, 1)` for `x ≥ 0`, which is all that occurs
